@@ -6,6 +6,7 @@ package main
 
 import (
 	"fmt"
+	"go/types"
 	"strings"
 
 	"golang.org/x/tools/go/ssa"
@@ -356,6 +357,7 @@ func inductionOver(p *Prog, ph *ssa.Phi, tested ssa.Value, x ssa.Value, start in
 
 func extraC13(c *Check) {
 	p := c.p
+	extraC13Cursor(c)
 	c.Rule("C13.SCAN", func() {
 		scanCoverage(c, p.MustFunc("app.findMostRecentNodeAndDetectSplitbrain"), "0", "the search for the maximal position examines every offered position: its index runs from the first unexamined element to len(positions) of the very slice it indexes")
 	})
@@ -828,4 +830,301 @@ func extraC10Unfence(c *Check) {
 		path, _ := ffa.Reach(isReturn, ReachOpts{Cut: []LitPat{FieldLit(false, "IsOffline"), func(l Lit) bool { return l.Pos && p.IsCall(l.T, "(*app.App).IsRecoveryNeeded") }}, Barrier: func(in ssa.Instruction) bool { return in == on[0].(ssa.Instruction) }})
 		c.Req(path == nil, p.Name(F), p.InstrPos(on[0]), "online:must", "an offline master that is not marked for recovery is brought online on every path", "path: "+ffa.PathString(path))
 	}
+}
+
+// ---------------------------------------------------------------------------------------
+// C13: the merge cursor of the interval subtraction (a proof obligation, decided by the
+// polyhedral engine over the branch facts that dominate each cursor increment)
+// ---------------------------------------------------------------------------------------
+
+// locKey names what an integer value denotes: an element field of a parameter slice (x[i].f, keyed
+// by the SSA identity of the index) or the SSA value itself. The slices are not written in the
+// function (checked), so equal keys denote equal integers between two executions of a phi's block.
+func locKey(p *Prog, v ssa.Value) string {
+	elem := func(ia *ssa.IndexAddr, f string) string {
+		if pa, ok := ia.X.(*ssa.Parameter); ok {
+			return fmt.Sprintf("%s[%s].%s", pa.Name(), ia.Index.Name(), f)
+		}
+		return ""
+	}
+	switch x := v.(type) {
+	case *ssa.UnOp:
+		if x.Op.String() == "*" {
+			if fa, ok := x.X.(*ssa.FieldAddr); ok {
+				if ia, ok := fa.X.(*ssa.IndexAddr); ok {
+					if k := elem(ia, afterDot(fieldName(fa.X.Type(), fa.Field))); k != "" {
+						return k
+					}
+				}
+				// a local copy of an element (`for _, iv := range a`): assigned once, from the element
+				if al, ok := fa.X.(*ssa.Alloc); ok {
+					if sts := p.CellStores(al); len(sts) == 1 {
+						if ld, ok := sts[0].(*ssa.UnOp); ok && ld.Op.String() == "*" {
+							if ia, ok := ld.X.(*ssa.IndexAddr); ok {
+								if k := elem(ia, afterDot(fieldName(fa.X.Type(), fa.Field))); k != "" {
+									return k
+								}
+							}
+						}
+					}
+				}
+			}
+		}
+	case *ssa.Field:
+		if ld, ok := x.X.(*ssa.UnOp); ok && ld.Op.String() == "*" {
+			if ia, ok := ld.X.(*ssa.IndexAddr); ok {
+				if k := elem(ia, afterDot(fieldName(x.X.Type(), x.Field))); k != "" {
+					return k
+				}
+			}
+		}
+	}
+	return v.Name()
+}
+
+// dominatingFacts: integer comparisons known whenever `at` executes: the branch edge's block dominates at's
+// block and at is not reachable from the other successor without passing the branch again (so the LAST
+// evaluation of the condition before `at` took this edge; the SSA values it mentions are not redefined in
+// between, because every definition dominates the branch).
+func dominatingFacts(p *Prog, fn *ssa.Function, at ssa.Instruction) []Rel {
+	var out []Rel
+	tb := at.Block()
+	for _, b := range fn.Blocks {
+		iff := blockIf(b)
+		if iff == nil || !b.Dominates(tb) || b == tb {
+			continue
+		}
+		bo, ok := iff.Cond.(*ssa.BinOp)
+		if !ok {
+			continue
+		}
+		op := bo.Op.String()
+		if op != "<" && op != "<=" && op != ">" && op != ">=" && op != "==" {
+			continue
+		}
+		if bt, ok := bo.X.Type().Underlying().(*types.Basic); !ok || bt.Info()&types.IsInteger == 0 {
+			continue
+		}
+		reach := func(from *ssa.BasicBlock) bool {
+			seen := map[*ssa.BasicBlock]bool{b: true}
+			var rec func(x *ssa.BasicBlock) bool
+			rec = func(x *ssa.BasicBlock) bool {
+				if x == tb {
+					return true
+				}
+				if seen[x] {
+					return false
+				}
+				seen[x] = true
+				for _, s := range x.Succs {
+					if rec(s) {
+						return true
+					}
+				}
+				return false
+			}
+			return rec(from)
+		}
+		r0, r1 := reach(b.Succs[0]), reach(b.Succs[1])
+		if r0 == r1 {
+			continue
+		}
+		mk := func(v ssa.Value) *SymExpr {
+			if k, ok := v.(*ssa.Const); ok && k.Value != nil {
+				if n, ok := constantInt(k); ok {
+					return sConst(n)
+				}
+			}
+			if call, ok := v.(*ssa.Call); ok {
+				if bi, ok := call.Call.Value.(*ssa.Builtin); ok && bi.Name() == "len" {
+					return sVar(fmt.Sprintf("len(%s)", call.Call.Args[0].Name()))
+				}
+			}
+			return sVar(locKey(p, v))
+		}
+		rel := Rel{mk(bo.X), op, mk(bo.Y)}
+		if r1 {
+			rel = rel.Neg()
+		}
+		out = append(out, rel)
+	}
+	return out
+}
+
+func constantInt(k *ssa.Const) (int64, bool) {
+	if k.Value == nil {
+		return 0, false
+	}
+	s := k.Value.ExactString()
+	var n int64
+	if _, err := fmt.Sscanf(s, "%d", &n); err != nil {
+		return 0, false
+	}
+	return n, true
+}
+
+func extraC13Cursor(c *Check) {
+	p := c.p
+	c.Rule("C13.CURSOR", func() {
+		F := p.MustFunc("mysql/gtids.intervalSliceMinus")
+		name := p.Name(F)
+		if len(F.Params) != 2 {
+			panic(AnchorError{name + " (a, b)"})
+		}
+		a, b := F.Params[0], F.Params[1]
+		// neither slice is written
+		for _, blk := range F.Blocks {
+			for _, in := range blk.Instrs {
+				if st, ok := in.(*ssa.Store); ok {
+					root := st.Addr
+					for {
+						switch x := root.(type) {
+						case *ssa.FieldAddr:
+							root = x.X
+							continue
+						case *ssa.IndexAddr:
+							root = x.X
+							continue
+						}
+						break
+					}
+					c.Req(root != ssa.Value(a) && root != ssa.Value(b), name, p.InstrPos(in), "cursor:inputs-read-only", "the subtraction does not write its inputs", "")
+				}
+			}
+		}
+		// the current minuend element's end
+		aStop := ""
+		bIdx := map[ssa.Value]bool{}
+		for _, blk := range F.Blocks {
+			for _, in := range blk.Instrs {
+				v, ok := in.(ssa.Value)
+				if !ok {
+					continue
+				}
+				k := locKey(p, v)
+				if strings.HasPrefix(k, a.Name()+"[") && strings.HasSuffix(k, ".Stop") {
+					if aStop != "" && aStop != k {
+						c.Undecided(name, p.InstrPos(in), "cursor:minuend-end", "one current minuend interval", "two different element ends "+aStop+" / "+k)
+						return
+					}
+					aStop = k
+				}
+				if ia, ok := in.(*ssa.IndexAddr); ok && ia.X == ssa.Value(b) {
+					bIdx[ia.Index] = true
+				}
+			}
+		}
+		if !c.Req(aStop != "" && len(bIdx) > 0, name, p.Pos(F.Pos()), "cursor:anchors", "the minuend element's end and the subtrahend cursor are found", "") {
+			return
+		}
+		// increments of the subtrahend cursor
+		n := 0
+		for _, blk := range F.Blocks {
+			for _, in := range blk.Instrs {
+				bo, ok := in.(*ssa.BinOp)
+				if !ok || bo.Op.String() != "+" || !bIdx[bo.X] {
+					continue
+				}
+				if k, ok := bo.Y.(*ssa.Const); !ok || k.Value == nil || k.Value.ExactString() != "1" {
+					c.Fail(name, p.InstrPos(in), "cursor:step", "the subtrahend cursor advances by one", "step "+p.T(bo.Y).String())
+					continue
+				}
+				n++
+				facts := dominatingFacts(p, F, in)
+				goal := Rel{sVar(fmt.Sprintf("%s[%s].Stop", b.Name(), bo.X.Name())), "<=", sVar(aStop)}
+				ok2 := Entails(facts, goal)
+				var fs []string
+				for _, f := range facts {
+					fs = append(fs, f.String())
+				}
+				c.Req(ok2, name, p.InstrPos(in), nthKey("cursor:skip-is-safe", n), "a subtrahend interval is skipped for good only if it ends within the current minuend interval (b[bi].Stop <= iv.Stop follows from the branch facts at the increment): both slices are sorted and disjoint, so it cannot intersect any later minuend interval; an interval reaching beyond must stay current for the next one", "facts at the increment: "+strings.Join(fs, " ∧ ")+"  ⊬  "+goal.String())
+			}
+		}
+		c.Req(n >= 1, name, p.Pos(F.Pos()), "cursor:increments", "the subtrahend cursor is advanced somewhere", "")
+		// every emitted piece is a non-empty interval inside the current minuend interval
+		ne := 0
+		for _, blk := range F.Blocks {
+			for _, in := range blk.Instrs {
+				call, ok := in.(*ssa.Call)
+				if !ok {
+					continue
+				}
+				if bi, ok := call.Call.Value.(*ssa.Builtin); !ok || bi.Name() != "append" {
+					continue
+				}
+				for _, el := range c.eff.variadic(call.Call.Args[1]) {
+					ld, ok := el.(*ssa.UnOp)
+					if !ok {
+						continue
+					}
+					al, ok := ld.X.(*ssa.Alloc)
+					if !ok {
+						continue
+					}
+					st, en := p.FieldStores(al, "mysql.Interval.Start"), p.FieldStores(al, "mysql.Interval.Stop")
+					if len(st) == 0 {
+						st, en = fieldStoresBySuffix(p, al, "Start"), fieldStoresBySuffix(p, al, "Stop")
+					}
+					if len(st) != 1 || len(en) != 1 {
+						c.Undecided(name, p.InstrPos(in), "piece:literal", "an emitted piece is an interval literal with one start and one stop", fmt.Sprintf("%d/%d stores", len(st), len(en)))
+						continue
+					}
+					ne++
+					facts := dominatingFacts(p, F, in)
+					sk, ek := sVar(locKey(p, st[0])), sVar(locKey(p, en[0]))
+					var fs []string
+					for _, f := range facts {
+						fs = append(fs, f.String())
+					}
+					c.Req(Entails(facts, Rel{sk, "<", ek}), name, p.InstrPos(in), nthKey("piece:non-empty", ne), "an emitted piece is a non-empty interval (start < stop follows from the branch facts)", "facts: "+strings.Join(fs, " ∧ "))
+					c.Req(Entails(facts, Rel{ek, "<=", sVar(aStop)}), name, p.InstrPos(in), nthKey("piece:inside-minuend", ne), "an emitted piece ends within the current minuend interval", "facts: "+strings.Join(fs, " ∧ "))
+				}
+			}
+		}
+		c.Req(ne >= 2, name, p.Pos(F.Pos()), "piece:sites", "the two emitting sites are found", fmt.Sprintf("%d", ne))
+		// the position reached inside the minuend interval: starts at the interval's start and only ever jumps to the
+		// end of the subtrahend interval just subtracted
+		np := 0
+		for _, blk := range F.Blocks {
+			for _, in := range blk.Instrs {
+				ph, ok := in.(*ssa.Phi)
+				if !ok {
+					continue
+				}
+				if bt, ok := ph.Type().Underlying().(*types.Basic); !ok || bt.Kind() != types.Int64 {
+					continue
+				}
+				np++
+				for i, e := range ph.Edges {
+					k := locKey(p, e)
+					okk := (strings.HasPrefix(k, a.Name()+"[") && strings.HasSuffix(k, ".Start")) || (strings.HasPrefix(k, b.Name()+"[") && strings.HasSuffix(k, ".Stop"))
+					c.Req(okk, name, p.InstrPos(in), nthKey(fmt.Sprintf("position#%d:source", np), i+1), "the position inside the minuend interval is its start or the end of a subtrahend interval", "is "+k)
+				}
+			}
+		}
+		c.Req(np == 1, name, p.Pos(F.Pos()), "position:variable", "one position variable", fmt.Sprintf("%d", np))
+		// the cursor never moves backwards: every definition reaching an index of b is 0, a phi of such, or +1
+		for v := range bIdx {
+			okm := derivesOnly(p.T(v), func(t *Term) bool {
+				return t.IsConst("0") || (t.Op == "bin" && t.Name == "+" && t.Args[1].IsConst("1")) || t.Op == "cycle"
+			})
+			c.Req(okm, name, p.Pos(F.Pos()), "cursor:monotone", "the subtrahend cursor starts at 0 and only ever grows by one", "cursor is "+p.T(v).String())
+		}
+	})
+}
+
+func fieldStoresBySuffix(p *Prog, al *ssa.Alloc, f string) []ssa.Value {
+	var out []ssa.Value
+	for _, r := range *al.Referrers() {
+		fa, ok := r.(*ssa.FieldAddr)
+		if !ok || afterDot(fieldName(fa.X.Type(), fa.Field)) != f {
+			continue
+		}
+		for _, rr := range *fa.Referrers() {
+			if st, ok := rr.(*ssa.Store); ok && st.Addr == ssa.Value(fa) {
+				out = append(out, st.Val)
+			}
+		}
+	}
+	return out
 }
